@@ -10,6 +10,8 @@ cat /repo/go.sum > h/go.sum
 [ -f h/go.sum.extra ] && cat h/go.sum.extra >> h/go.sum
 rc=0
 ( cd h && $GO build -tags verif -o ../out/bin/ ./cmd/... ) || rc=1
+# warm the -race build cache for the free-running pass of the thorough tier (C05, C06, C16)
+( cd h && $GO build -race -tags verif -o ../out/bin/racefree ./cmd/racefree ) || rc=1
 if [ -x out/bin/evmconf ]; then
   ./out/bin/evmconf --tier quick > out/evmconf.log 2>&1 || { echo "evmconf failed (see out/evmconf.log)"; rc=1; }
 fi
